@@ -557,6 +557,10 @@ func TestC19(t *testing.T) {
 				if k >= nops {
 					choice = 4
 				}
+				if out := outPath(); out != "" { // if the bubble deadlocks or the process dies, this script is the replay
+					b, _ := json.Marshal(map[string]any{"c19script": strings.Join(script, " "), "next": choice})
+					writeFileQuiet(out+".progress", b)
+				}
 				switch {
 				case choice <= 1:
 					pmu.Lock()
